@@ -142,14 +142,14 @@ func vrtC08(pipeline bool) {
 }
 
 // Many stale pooled connections: k concurrent warm-up queries on a pipelined transport whose
-// connections carry one query each leave k pooled connections; then every server dies
+// connections carry one query each (or on the non-pipelined transport) leave k pooled connections; then every server dies
 // silently (EOF instead of the next reply).  The next query must not be transmitted on more
 // than 4 connections, whatever the pool looks like.
 func vrtHarness_C08_stalePool() {
 	k := vrtParam("pool", 5)
 	var conns []*vrtConn
 	dead := false
-	t := NewPipelineTransport(PipelineOpts{MaxConcurrentQueryWhileDialing: 1, DialContext: func(ctx context.Context) (DnsConn, error) {
+	dial := func(ctx context.Context) (NetConn, error) {
 		var c *vrtConn
 		vrtAtomic(func() {
 			c = &vrtConn{stream: true}
@@ -173,8 +173,19 @@ func vrtHarness_C08_stalePool() {
 				})
 			}()
 		})
-		return NewDnsConn(TraditionalDnsConnOpts{WithLengthHeader: true, MaxConcurrentQuery: 1}, c), nil
-	}})
+		return c, nil
+	}
+	var t vrtExchanger
+	if vrtChoice(2) == 0 {
+		t = NewPipelineTransport(PipelineOpts{MaxConcurrentQueryWhileDialing: 1, DialContext: func(ctx context.Context) (DnsConn, error) {
+			c, _ := dial(ctx)
+			return NewDnsConn(TraditionalDnsConnOpts{WithLengthHeader: true, MaxConcurrentQuery: 1}, c), nil
+		}})
+	} else {
+		// the non-pipelined transport: k concurrent queries dial k connections, all pooled afterwards
+		t = NewReuseConnTransport(ReuseConnOpts{DialContext: dial})
+		vrtCover("non-pipelined pool", true)
+	}
 	ctx, cancel := context.WithTimeout(context.Background(), 2*time.Second)
 	defer cancel()
 	okN := 0
